@@ -1,4 +1,4 @@
-* quick tier: mono mode (io_max = 1), 2 readers, 2 writers, up to 2 failing tasks, all reader outcomes
+\* quick tier: mono mode (io_max = 1), 2 readers, 2 writers, up to 2 failing tasks, all reader outcomes
 SPECIFICATION FairSpec
 CONSTANTS
   N = 1
